@@ -128,6 +128,16 @@ def outcome(ex, ev, p):
     raise NoModel("variant %s" % li[2])
 
 
+def _collinear_families():
+    """every ordered pair of segments among four collinear points, on a horizontal, a vertical and a diagonal line: one segment strictly inside
+    the other, partial overlaps, end-to-end contact, gaps - configurations a 3x3 grid cannot hold (it has only three points per line)"""
+    out = []
+    for line_pts in ([C(x, 1) for x in range(4)], [C(2, y) for y in range(4)], [C(k, k) for k in range(4)], [C(k, 3 - k) for k in range(4)]):
+        ss = [{"start": a, "end": b} for a, b in itertools.product(line_pts, repeat=2)]
+        out += list(itertools.product(ss, repeat=2))
+    return out
+
+
 def classification(rep, F, tier, rule="R11.2", fn=None, pq=(1, 2), what="line_intersection"):
     rep.rule(rule, what + "'s decision table equals the exact classification (None / Collinear overlap / single point, properness) on every ordered pair of grid segments; "
                       "improper points and overlap ends are the true input end points (R11.3); both orders are covered (R11.5)")
@@ -145,11 +155,12 @@ def classification(rep, F, tier, rule="R11.2", fn=None, pq=(1, 2), what="line_in
     tree = Tree(paths)
     grid = G3 if tier == "quick" else G4
     segs = [{"start": a, "end": b} for a, b in itertools.product(grid, repeat=2)]
+    pairs = list(itertools.product(segs, repeat=2)) + _collinear_families()
     n = 0
     reached = set()
     kinds = {}
     mism = {}
-    for p_, q_ in itertools.product(segs, repeat=2):
+    for p_, q_ in pairs:
         ev = Evaluator(F, {("arg", pq[0]): p_, ("arg", pq[1]): q_}, CALLS)
         try:
             hit = tree.select(ev)
@@ -215,7 +226,7 @@ def agreement(rep, F, rule="R11.4"):
     tree = Tree(paths)
     segs = [{"start": a, "end": b} for a, b in itertools.product(G3, repeat=2)]
     n = 0
-    for p_, q_ in itertools.product(segs, repeat=2):
+    for p_, q_ in list(itertools.product(segs, repeat=2)) + _collinear_families():
         ev = Evaluator(F, {("arg", 1): p_, ("arg", 2): q_}, CALLS)
         try:
             hit = tree.select(ev)
